@@ -14,7 +14,8 @@ ASSUME TableOK
 
 UseVars == IF FullTable THEN Vars ELSE {3, 4, 6, 9, 10, 22}   \* COMMENT CONFLICTS DESCRIPTION FILE_SIZE HOMEPAGE SIZE_PKG
 ReqHere == Required \cap UseVars
-Texts == IF FullTable THEN { <<>>, <<120>>, <<97, EQ, 98>>, <<233>>, <<49>>, <<32, 120, 32>>, <<EQ>>, <<128150>> }
+Texts == IF FullTable THEN { <<>>, <<120>>, <<97, EQ, 98>>, <<233>>, <<49>>, <<32, 120, 32>>, <<EQ>>, <<128150>>,
+                             <<112, DASH, 49>>, <<112, DASH, 113, DASH, 49>>, <<112, DASH>>, <<DASH, 49>> }
          ELSE { <<>>, <<120>>, <<97, EQ, 98>>, <<233>> }
 Ints  == IF FullTable THEN { <<DASH, 49>>, <<48>>, <<55>>, Codes("9223372036854775807"), Codes("-9223372036854775808") }
          ELSE { <<DASH, 49>>, <<48>>, <<55>> }
@@ -27,10 +28,10 @@ Init == e = Empty /\ n = 0 /\ hist = <<>> /\ fin = FALSE
 
 Log(kind, v, x, e2) == IF EmitHist THEN Append(hist, [k |-> kind, v |-> v, x |-> x, e |-> e2]) ELSE hist
 
-SetS(v) == /\ Kind(v) = "S" /\ \E x \in Texts : e' = SetVal(e, v, x) /\ hist' = Log("set", v, x, e')
-SetI(v) == /\ Kind(v) = "I" /\ \E x \in Ints  : e' = SetVal(e, v, x) /\ hist' = Log("set", v, x, e')
-SetA(v) == /\ Kind(v) = "A" /\ \E x \in Lists : e' = SetVal(e, v, x) /\ hist' = Log("set", v, x, e')
-PushA(v) == /\ Kind(v) = "A" /\ \E x \in Texts : e' = PushVal(e, v, x) /\ hist' = Log("push", v, x, e')
+SetS(v) == /\ VKind(v) = "S" /\ \E x \in Texts : e' = SetVal(e, v, x) /\ hist' = Log("set", v, x, e')
+SetI(v) == /\ VKind(v) = "I" /\ \E x \in Ints  : e' = SetVal(e, v, x) /\ hist' = Log("set", v, x, e')
+SetA(v) == /\ VKind(v) = "A" /\ \E x \in Lists : e' = SetVal(e, v, x) /\ hist' = Log("set", v, x, e')
+PushA(v) == /\ VKind(v) = "A" /\ \E x \in Texts : e' = PushVal(e, v, x) /\ hist' = Log("push", v, x, e')
 
 Call == /\ n < Depth /\ n' = n + 1 /\ UNCHANGED fin
         /\ \E v \in UseVars : SetS(v) \/ SetI(v) \/ SetA(v) \/ PushA(v)
@@ -43,12 +44,12 @@ View == <<e, n, fin>>
 
 \* no "internal error": every stored value has the kind of its variable
 TypeOK == \A v \in Vars : e[v] = <<>> \/
-             (IF Kind(v) = "A" THEN e[v][1] \in Seq(Seq(Int)) /\ Len(e[v][1]) >= 1
-              ELSE IF Kind(v) = "I" THEN IsI64Text(e[v][1]) /\ I64Print(I64Value(e[v][1])) = e[v][1]
+             (IF VKind(v) = "A" THEN e[v][1] \in Seq(Seq(Int)) /\ Len(e[v][1]) >= 1
+              ELSE IF VKind(v) = "I" THEN IsI64Text(e[v][1]) /\ I64Print(I64Value(e[v][1])) = e[v][1]
               ELSE TRUE)
 CompletedHere == \A v \in ReqHere : e[v] # <<>>
 \* print -> parse gives the entry back (C07), judged on the reduced required set
-Padding == [v \in Vars |-> IF v \in Required \ UseVars THEN <<IF Kind(v) = "A" THEN <<<<112>>>> ELSE IF Kind(v) = "I" THEN <<49>> ELSE <<112>>>> ELSE <<>>]
+Padding == [v \in Vars |-> IF v \in Required \ UseVars THEN <<IF VKind(v) = "A" THEN <<<<112>>>> ELSE IF VKind(v) = "I" THEN <<49>> ELSE <<112>>>> ELSE <<>>]
 Padded == [v \in Vars |-> IF e[v] # <<>> THEN e[v] ELSE Padding[v]]
 RoundTrip == CompletedHere => Parse(Render(Padded)) = <<"ok", Padded>>
 \* parse -> print reproduces canonical text byte for byte
@@ -72,5 +73,8 @@ Emit == (EmitHist /\ fin) =>
                                             snaps |-> [i \in 1..Len(hist) |-> hist[i].e],
                                             texts |-> [i \in 1..Len(hist) |-> Render(hist[i].e)],
                                             done  |-> [i \in 1..Len(hist) |-> TF(Completed(hist[i].e))],
+                                            pb    |-> [i \in 1..Len(hist) |-> AccBase(hist[i].e)],
+                                            pv    |-> [i \in 1..Len(hist) |-> AccVer(hist[i].e)],
+                                            desc  |-> [i \in 1..Len(hist) |-> DescStr(hist[i].e)],
                                             reparse |-> ParseJson(Render(e))]])>>)
 =============================================================================
